@@ -427,6 +427,8 @@ class EnumSpec:
         b.crate_path = None
         b.macro_params = []
         b.nest = False
+        if b.vis == "pub(in super::super)":
+            b.vis = "pub(in super)"     # one module level less without the nest module
         b.extra_enum_attrs = [a for a in b.extra_enum_attrs if "strum" not in a]
         for v in b.variants:
             v.serialize, v.to_string = [], None
